@@ -43,6 +43,7 @@ type Req struct {
 	DeclLen       *int64                   // overrides x-amz-decoded-content-length (streaming) when set
 	Timeout       time.Duration
 	NoContLen     bool
+	TEChunked     bool   // send the body with Transfer-Encoding: chunked (HTTP framing) and no Content-Length
 	PayloadHashOf []byte // header mode: sign x-amz-content-sha256 = sha256 of these bytes instead of Body
 }
 
@@ -328,11 +329,26 @@ func Do(addr string, r Req) Resp {
 	for _, h := range r.Headers {
 		fmt.Fprintf(&b, "%s: %s\r\n", h.K, h.V)
 	}
-	if !r.NoContLen && r.Get("Content-Length") == "" && (len(wire) > 0 || r.Method == "PUT" || r.Method == "POST") {
+	if r.TEChunked {
+		b.WriteString("Transfer-Encoding: chunked\r\n")
+	} else if !r.NoContLen && r.Get("Content-Length") == "" && (len(wire) > 0 || r.Method == "PUT" || r.Method == "POST") {
 		fmt.Fprintf(&b, "Content-Length: %d\r\n", len(wire))
 	}
 	b.WriteString("Connection: close\r\n\r\n")
-	b.Write(wire)
+	if r.TEChunked {
+		for off := 0; off < len(wire); off += 37 {
+			end := off + 37
+			if end > len(wire) {
+				end = len(wire)
+			}
+			fmt.Fprintf(&b, "%x\r\n", end-off)
+			b.Write(wire[off:end])
+			b.WriteString("\r\n")
+		}
+		b.WriteString("0\r\n\r\n")
+	} else {
+		b.Write(wire)
+	}
 	to := r.Timeout
 	if to == 0 {
 		to = 20 * time.Second
@@ -411,7 +427,30 @@ func applyDefect(r *Req, wire *[]byte) {
 		} else {
 			r.Query += "&injected=1"
 		}
-	case "altered-payload":
+	case "dup-query-first":
+		// a second copy of a signed query parameter, with another value, placed in front of the signed one
+		// (handlers read the first occurrence of a parameter)
+		if r.Query == "" {
+			r.Query = "injected=1"
+			break
+		}
+		parts := strings.Split(r.Query, "&")
+		pick := parts[0]
+		for _, p := range parts {
+			if !strings.HasPrefix(p, "X-Amz-") {
+				pick = p
+				break
+			}
+		}
+		k := pick
+		if i := strings.Index(pick, "="); i >= 0 {
+			k = pick[:i]
+		}
+		r.Query = k + "=forged-value&" + r.Query
+	case "te-chunked-altered-payload", "altered-payload":
+		if r.Defect == "te-chunked-altered-payload" {
+			r.TEChunked = true
+		}
 		if len(*wire) > 0 {
 			w := append([]byte{}, *wire...)
 			w[len(w)/2] ^= 1
